@@ -15,7 +15,15 @@ Inductive case :=
    pairs, content type; decoding oracles as tables keyed by the raw value). o_loc: Location header;
    o_carried: for a redirect to the provider, the URI found in the state handed to it *)
 | CServe (c : config) (now_ns : Z) (ep : endpoint) (w : wire)
-         (o_status : N) (o_loc : option str) (o_carried : option str).
+         (o_status : N) (o_loc : option str) (o_carried : option str)
+(* the same, with the clock read before AND after the request: the service read its own clock
+   somewhere in [now_lo, now_hi]. Used for sequences that re-present a request after a deadline
+   has passed on the same instance (small real-time margins): the model's verdict is accepted
+   if it matches for either end, the monitor judges freshness with the earlier (lenient) instant *)
+| CServeT (c : config) (now_lo now_hi : Z) (ep : endpoint) (w : wire)
+          (o_status : N) (o_loc : option str) (o_carried : option str)
+(* auth.NewAuthenticator on a configured root-domain list: it never fails in the code as it is *)
+| CBoot (cfg_domains : list str) (ok : bool).
 
 (* ============ the property, as boolean specifications on observations ============ *)
 (* "host equals a configured root domain or is a subdomain of one" (leading dots of the
@@ -216,11 +224,31 @@ Definition judge (cs : case) : N :=
   | CServe c now_ns ep w o_status o_loc o_carried =>
       code (serve_mismatch c now_ns ep w o_status o_loc o_carried)
            (serve_holds c now_ns ep w o_status o_loc o_carried) 0
+  | CServeT c now_lo now_hi ep w o_status o_loc o_carried =>
+      code (serve_mismatch c now_lo ep w o_status o_loc o_carried &&
+            serve_mismatch c now_hi ep w o_status o_loc o_carried)
+           (serve_holds c now_lo ep w o_status o_loc o_carried) 0
+  | CBoot _ ok => code (negb ok) true 0
   end.
 
 (* ============ classes for the evidence histogram ============ *)
 Definition ep_num (ep : endpoint) : N :=
   match ep with EpStart => 0 | EpSignIn => 1 | EpSignOut => 2 | EpCallback => 3 end.
+
+Definition serve_class (ep : endpoint) (w : wire) (o_status : N) (o_loc o_carried : option str) : N :=
+      (* +50: some parameter is presented with two different values (query vs body, or duplicated) *)
+      (if existsb (fun k => match presented w k with a :: r => existsb (fun b => negb (str_eqb a b)) r | [] => false end)
+                  [k_redirect_uri; k_sig; k_ts; k_state; k_client_id; k_code; k_error] then 50 else 0) +
+      100 + 10 * ep_num ep +
+      match o_carried, o_loc with
+      | Some _, _ => 5
+      | None, Some l => if contains l code_param then 4 else 3
+      | None, None =>
+          if N.eqb o_status 405 then 0
+          else if N.eqb o_status 200 then 2
+          else if N.eqb o_status 400 || N.eqb o_status 401 then 1
+          else 6
+      end.
 
 Definition classify (cs : case) : N :=
   match cs with
@@ -248,18 +276,7 @@ Definition classify (cs : case) : N :=
                | Some t => if too_old now_ns t then 23 else 24
                end
            end
-  | CServe c now_ns ep w o_status o_loc o_carried =>
-      (* +50: some parameter is presented with two different values (query vs body, or duplicated) *)
-      (if existsb (fun k => match presented w k with a :: r => existsb (fun b => negb (str_eqb a b)) r | [] => false end)
-                  [k_redirect_uri; k_sig; k_ts; k_state; k_client_id; k_code; k_error] then 50 else 0) +
-      100 + 10 * ep_num ep +
-      match o_carried, o_loc with
-      | Some _, _ => 5
-      | None, Some l => if contains l code_param then 4 else 3
-      | None, None =>
-          if N.eqb o_status 405 then 0
-          else if N.eqb o_status 200 then 2
-          else if N.eqb o_status 400 || N.eqb o_status 401 then 1
-          else 6
-      end
+  | CServe c _ ep w o_status o_loc o_carried => serve_class ep w o_status o_loc o_carried
+  | CServeT c _ _ ep w o_status o_loc o_carried => 1000 + serve_class ep w o_status o_loc o_carried
+  | CBoot _ ok => if ok then 31 else 30
   end.
